@@ -392,24 +392,29 @@ func (c *conn) rawCall(k int, cs *CallSpec) {
 		c.emit(Event{"e": "bad", "what": "cannot encode raw message: " + err.Error()})
 		return
 	}
+	if cs.Out != nil {
+		// a known method name: the handler will run and play this outcome
+		c.script = append(c.script, cs.Out)
+		c.scriptM = append(c.scriptM, cs.Raw)
+	}
 	c.c2s.Write(b)
 	c.emit(Event{"e": "raw", "k": k, "toks": toks})
 	c.pump()
 	c.c2sMark = c.c2s.Len()
 	// read the reply without the generated client: header through the protocol library, body by the lexer
-	res := map[string]interface{}{"k": "err", "msg": "no reply"}
+	res := map[string]interface{}{"k": "none"} // nothing came back
 	var rt []rec.Tok
 	if c.s2c.Len() > 0 {
 		pr := thrift.NewTBinaryProtocol(c.s2c, true, true)
 		name, mt, seq, err := pr.ReadMessageBegin()
 		if err != nil {
-			res["msg"] = "reply header: " + err.Error()
+			res = map[string]interface{}{"k": "err", "msg": "reply header: " + err.Error()}
 		} else {
 			imt, iseq := int(mt), int(seq)
 			rt = append(rt, rec.Tok{T: "MSG", Name: name, Mt: &imt, Seq: &iseq})
 			body, n, err := rec.Lex(c.s2c.Bytes(), 12)
 			if err != nil {
-				res["msg"] = "reply body: " + err.Error()
+				res = map[string]interface{}{"k": "err", "msg": "reply body: " + err.Error()}
 			} else {
 				c.s2c.Next(n)
 				rt = append(rt, body...)
@@ -418,7 +423,7 @@ func (c *conn) rawCall(k int, cs *CallSpec) {
 					if ty, ok := appType(body); ok {
 						res = map[string]interface{}{"k": "app", "ty": ty}
 					} else {
-						res["msg"] = "exception reply without a type field"
+						res = map[string]interface{}{"k": "err", "msg": "exception reply without a type field"}
 					}
 				} else {
 					res = map[string]interface{}{"k": "rawreply", "mt": imt}
